@@ -19,8 +19,8 @@ from pactisim.env import HarnessError
 
 PROP = "C14"
 ORACLES = ["O1", "O2", "E1", "E1b", "E2"]
-RUNS = {"quick": 640, "thorough": 24_000}
-E4_RUNS = {"quick": 320, "thorough": 12_000}
+RUNS = {"quick": 800, "thorough": 24_000}
+E4_RUNS = {"quick": 400, "thorough": 12_000}
 ALGEBRA_RUNS = {"quick": 20_000, "thorough": 2_000_000}
 WALL_CAP = {"quick": 1500.0, "thorough": 5 * 3600.0}
 CHUNK = 10
